@@ -123,6 +123,7 @@ type promoRow struct {
 	InSwitch bool               `json:"inswitch"`
 	LocksOK  bool               `json:"locksok"` // C03_SwitchRechecks observed for this promotion
 	FreezeSeen bool             `json:"freezeseen"`
+	Turbo    []string           `json:"turbo"` // hosts registered / relaxed by mysync itself inside this activation (speed-up phase)
 }
 
 // attemptRow: one handler activation that froze nodes for a switchover (C01 split-brain clause).
@@ -136,6 +137,7 @@ type attemptRow struct {
 	Emerge   bool               `json:"emerge"`
 	Ended    string             `json:"ended"` // exit | dead
 	ReadsOK  bool               `json:"readsok"` // every position read of the attempt was answered
+	RelaxAfterFreeze int        `json:"relaxafterfreeze"` // durability-relaxing statements after the first freeze call (C19)
 }
 
 type actState struct {
@@ -152,6 +154,8 @@ type actState struct {
 	lockAfterCatch  bool
 	collecting      bool
 	readsOK         bool
+	relaxAfterFreeze int
+	turbo            map[string]bool
 	inSwitch   bool
 	swRaw      string
 	oldMaster  string
@@ -208,7 +212,7 @@ func (o *vObserver) onEvent(ev *verifsim.TraceEvent, worldLocked bool) {
 		switch ev.Op {
 		case "Enter":
 			if ev.Arg == "Manager" || ev.Arg == "Maintenance" || ev.Arg == "Candidate" || ev.Arg == "Lost" || ev.Arg == "FirstRun" {
-				o.acts[ev.By] = &actState{froze: map[string]bool{}, stopped: map[string]bool{}, oldMaster: pre.master}
+				o.acts[ev.By] = &actState{froze: map[string]bool{}, stopped: map[string]bool{}, oldMaster: pre.master, turbo: map[string]bool{}}
 			}
 		case "AcquireLock":
 			a := o.acts[ev.By]
@@ -232,7 +236,7 @@ func (o *vObserver) onEvent(ev *verifsim.TraceEvent, worldLocked bool) {
 					ended = "dead"
 				}
 				o.atts = append(o.atts, attemptRow{Kind: "attempt", Scn: o.sc.ID, By: ev.By, Frozen: nn(a.frozen), Hosts: a.collect,
-					Promos: a.promos, Emerge: pre.emerge, Ended: ended, ReadsOK: a.readsOK})
+					Promos: a.promos, Emerge: pre.emerge, Ended: ended, ReadsOK: a.readsOK, RelaxAfterFreeze: a.relaxAfterFreeze})
 			}
 			delete(o.acts, ev.By)
 		}
@@ -246,6 +250,9 @@ func (o *vObserver) onEvent(ev *verifsim.TraceEvent, worldLocked bool) {
 			if ev.Res == "ok" {
 				json.Unmarshal([]byte(ev.Val), &a.active)
 			}
+		}
+		if ev.Op == "Create" && strings.HasPrefix(ev.At, "optimization_nodes/") && ev.Res == "ok" {
+			a.turbo[strings.TrimPrefix(ev.At, "optimization_nodes/")] = true
 		}
 		if ev.Op == "SetData" && ev.At == pathCurrentSwitch && ev.Res == "ok" && strings.Contains(ev.Arg, `"started_by":"`+ev.By+`"`) && !a.inSwitch {
 			a.inSwitch = true
@@ -278,6 +285,9 @@ func (o *vObserver) onEvent(ev *verifsim.TraceEvent, worldLocked bool) {
 		if ev.Res != "ok" {
 			return
 		}
+		if a.anyFreeze && ((ev.Op == "SetFlush" && ev.Arg == "2") || (ev.Op == "SetSyncBinlog" && ev.Arg == "1000")) {
+			a.relaxAfterFreeze++
+		}
 		switch ev.Op {
 		case "SetSuperReadOnly":
 			if a.inSwitch {
@@ -302,7 +312,7 @@ func (o *vObserver) onEvent(ev *verifsim.TraceEvent, worldLocked bool) {
 				Cause: sw.Cause, Trans: string(sw.MasterTransition), From: sw.From, To: sw.To,
 				Recovery: pre.recovery, Cascade: o.cascadeHosts(),
 				OptReg: pre.optreg,
-				InSwitch: a.inSwitch, LocksOK: a.lockAfterFreeze && a.lockAfterCatch, FreezeSeen: a.anyFreeze}
+				InSwitch: a.inSwitch, LocksOK: a.lockAfterFreeze && a.lockAfterCatch, FreezeSeen: a.anyFreeze, Turbo: nn(sortedKeys(a.turbo))}
 			if cfg.ASync && sw.Cause == CauseAuto && cfg.AsyncAllowedLag > 0 {
 				row.AsyncEsc = true
 			}
